@@ -273,6 +273,14 @@ def sem_term(rows, r):
     return e
 
 
+def same_name(ex, a, b):
+    """are two abstract path strings equal on every model of the path condition?"""
+    if envstubs.strid(a.copy().norm()) == envstubs.strid(b.copy().norm()): return True
+    e = envstubs.str_eq(a.copy(), b.copy())
+    if isinstance(e, bool): return e
+    return ex.valid(e)
+
+
 def expected_names(ex, cfg, w):
     d = '/data/ch/'
     tmp = SymStr([d, ('d', w['DIR'], 'cal'), '/', 'tmp.rf@', ('d', w['FS'], 'u'), '.', ('d', w['FMS'], 'u03'), '.h5']).norm()
@@ -437,7 +445,7 @@ def check_path(ex, cfg, status, ret, agg):
         lit = ''.join(p for p in f['name'].parts if isinstance(p, str))
         pr.append(z3.BoolVal('/tmp.rf@' in lit))
         # access(final) == -1 observed before the create on this path
-        acc = [e for e in ex.events[:f['ev']] if e[0] == 'access' and envstubs.strid(e[1]) == envstubs.strid(finn)]
+        acc = [e for e in ex.events[:f['ev']] if e[0] == 'access' and same_name(ex, e[1], finn)]
         pr.append(z3.BoolVal(bool(acc)))
         if acc:
             b = acc[-1][2]
